@@ -265,7 +265,7 @@ def run_shard(tier, seed, idx, n, res, tmp):
     finally:
         pkg.close()
     # (2) random composite types: valid values and one-step-invalid neighbours
-    for ci in range(idx, b['random_specs'], n):
+    for ci in common.case_range(idx, b['random_specs'], n, res):
         try:
             case = rtwork.SpecCase(PROPERTY, seed, ci, tmp, rtwork.rt_profile())
             case.pkg.mod(case.m.namespaces[0].name)
